@@ -17,6 +17,93 @@ func init() {
 	})
 }
 
+// c17WorkerStartsByDraining: the buffered provider's worker blocks for new items only after a
+// dequeue came back short, so operations persisted before a restart are applied without
+// waiting for an unrelated new one.
+func c17WorkerStartsByDraining(c *Ctx) {
+	f := c.Fn("(*dht/provider/buffered.SweepingProvider).worker")
+	info := f.Info()
+	cf := f.CFG()
+	var flag eng.Object
+	nWait := 0
+	for _, sel := range f.Selects() {
+		hasDefault, onNew := false, false
+		var at eng.Loc
+		for _, sc := range eng.SelectCases(info, sel) {
+			if sc.Kind == "default" {
+				hasDefault = true
+			}
+			if sc.Chan != nil && eng.IsField(info, sc.Chan, "dht/provider/buffered.SweepingProvider.newItems") {
+				onNew = true
+				at = cf.LocOf(sc.Clause.Comm)
+			}
+		}
+		if hasDefault || !onNew {
+			continue
+		}
+		nWait++
+		g, gd := cf.Guarded(at, func(ft eng.Fact) bool {
+			o, truth, isB := ft.BoolVar()
+			if isB && truth {
+				flag = o
+			}
+			return isB && truth
+		})
+		_ = gd
+		c.Check(K(f.Name, "blocking wait behind a flag"), sel.Pos(), g && flag != nil, "the worker blocks for new items only when a flag says the queue was drained", "the blocking select is not guarded by a boolean flag")
+	}
+	c.Check(K(f.Name, "blocking wait"), f.Pos(), nWait == 1, "the worker has one blocking wait for new items", "found "+itoa(nWait))
+	if flag == nil {
+		return
+	}
+	for i, d := range assignsDeep(f.Root(), flag) {
+		if d == nil {
+			continue // `var drained bool`: starts false
+		}
+		if isBoolConst(info, d, false) {
+			continue
+		}
+		ok := false
+		if isBoolConst(info, d, true) {
+			// only after GetN returned fewer items than asked for
+			var at eng.Loc
+			f.Walk(func(n ast.Node) bool {
+				switch x := n.(type) {
+				case *ast.AssignStmt:
+					for k, r := range x.Rhs {
+						if r == d && k < len(x.Lhs) {
+							at = cf.LocOf(x)
+						}
+					}
+				case *ast.ValueSpec:
+					for _, r := range x.Values {
+						if r == d {
+							at = cf.LocOf(x)
+						}
+					}
+				}
+				return true
+			})
+			if at.Valid() {
+				ok, _ = cf.Guarded(at, func(ft eng.Fact) bool {
+					x, op, y, isRel := ft.Rel()
+					if !isRel || (op != eng.LSS && op != eng.LEQ) {
+						return false
+					}
+					la := eng.LenArg(info, x)
+					if la == nil || !eng.IsField(info, y, "dht/provider/buffered.SweepingProvider.batchSize") {
+						return false
+					}
+					def := f.LocalVarDef(eng.ObjOf(info, la))
+					_, isGet := eng.IsCallTo(info, defOrNil(def), "(*github.com/ipfs/go-dsqueue.DSQueue).GetN")
+					return isGet
+				})
+			}
+		}
+		c.Check(K(f.Name, "drained flag#"+itoa(i)), d.Pos(), ok, "the drained flag becomes true only after a dequeue returned fewer items than the batch size (it starts false: what a previous run left in the queue is applied first)", "the flag is set by "+short(d)+" without a short dequeue")
+	}
+}
+
 func runC17(c *Ctx) {
 	p := c.P
 	// R1 failed work is re-queued
@@ -319,6 +406,7 @@ func runC17(c *Ctx) {
 
 	// R4 buffered coalescing
 	c.Rule("R4")
+	c17WorkerStartsByDraining(c)
 	{
 		f := c.Fn("dht/provider/buffered.getOperations")
 		cf := f.CFG()
